@@ -36,7 +36,8 @@ _P["level_text"] += (
     "the root on the other side), after_maxit1_bisection (from maxit1_ on every pass is a bisection), after_maxit1_replace, newton_step_guard. THEOREMS over ℝ, every kernel: iterates_in_open_interval (unit vectors with sin α₁ > 0), "
     "bracket_contains_root (for a kernel that is positive only above and negative only below a root the root stays strictly inside the bracket), bracket_ends_monotone, bisection_inside_bracket (cotangent of the new point is the mediant), "
     "bisection_halves_angle (the normalised chord midpoint of directions A, B is the direction (A+B)/2), a12_range (0 ≤ a12 ≤ 180 on every branch for kernels with arcs in [0, π]) and a12_range_series (no hypothesis on kernels: the Lean "
-    "Lambda12 and InverseStart satisfy the contract), s12_nonneg_short, s12_nonneg_equatorial, series_dnm_nonneg, equatorial_closed_form (s12 = a λ12, m12 = b sin(λ12/f1), M12 = M21 = cos(λ12/f1), a12 = lon12/f1, S12 = 0, azimuths ±90) "
+    "Lambda12 and InverseStart satisfy the contract), reduced_latitudes_ordered and lambda12_radicand_nonneg with lambda12_calp2 (after the ordering guard of fix 48445e6 the radicand of calp2 in Lambda12 is non-negative for every trial azimuth: "
+    "no sqrt of a negative number, what F55 was), s12_nonneg_short, s12_nonneg_equatorial, series_dnm_nonneg, equatorial_closed_form (s12 = a λ12, m12 = b sin(λ12/f1), M12 = M21 = cos(λ12/f1), a12 = lon12/f1, S12 = 0, azimuths ±90) "
     "with series_area_equatorial, meridional_closed_form, meridional_azimuth_far and meridional_azimuths (azimuths exactly 0 or 180), full_exchange / full_equator / full_meridian (the symmetry laws for the whole function, every kernel) and "
     "flags_do_not_reach_the_solver; series_f64_exchange / _equator / _meridian instantiate the binary64 laws with the full series model as core. "
     "CORRESPONDENCE: op geninv_series runs the full Lean series solver in binary64 on the inputs of Geodesic::GenInverse (only the values of Math::sincosd / sincosde are handed over; the head of GenInverse is recomputed by the exact "
@@ -44,7 +45,8 @@ _P["level_text"] += (
     "its Newton loop (made visible through maxit2_ = 0, 1, 2, …) — on the unchanged tree model and implementation follow the same trajectory in every case sampled. "
     "NOT PROVED: convergence of the Newton iteration, that Lambda12 has the sign structure assumed by bracket_contains_root, global minimality; s12 ≥ 0 on the meridional and Newton branches; the F64 laws of the head (AngDiff antisymmetry) are C16's. "
     "Open findings of this round (each a decidable class, everything else alarms): F61 a12 > 180 by ulps at the equatorial cut-off, F62 zero-length answer 1–64 ulp beyond the cut-off on strongly oblate ellipsoids, F63 bisection budget too small "
-    "on strongly eccentric ellipsoids (errors of metres), F64 uninitialised s12x in GeodesicExact's meridional guard.")
+    "on strongly eccentric ellipsoids (errors of metres), F64 uninitialised s12x in GeodesicExact's meridional guard, F65 non-shortest answer (second root of lambda12, m12 < 0, thousands of km longer) on strongly prolate ellipsoids for "
+    "points within round-off of opposite meridians. One false alarm of the new strata removed: the position tolerance is scaled with the quarter meridian (the normalisation of the library's accuracy tables) instead of a on prolate ellipsoids.")
 _P["rule"] += ("; deepening round strata next to every branch boundary of GenInverse: inverse-14 equatorial cut-off lon12 = 180(1−f) ± 4 ulp incl. denormal latitudes, inverse-15 tiny latitudes 1e-18…1e-5° around the equatorial conjugate "
                "distance (loop crosses maxit1_, ends by tripb / maxit2_), inverse-16 meridional candidate on the boundary of its acceptance (found by bisection on the returned azimuth) and arcs of one radian over the pole, inverse-17 arc length "
                "etol2·(1 ± 10^-k) (short-line exit), inverse-18 lon12 = 180 ± 3 ulp with inexact longitude differences, inverse-19 both points at / next to the same or opposite poles, inverse-20 denormal latitudes and longitude differences, "
